@@ -1140,6 +1140,7 @@ func (app *App) ErrorHandler(ctx Ctx, err error) error {
 	var (
 		mountedErrHandler ErrorHandler
 		mountedPrefixLen  int
+		mountedPrefix     string
 	)
 
 	// mount prefixes are compared the way routes are matched: ignoring letter case unless CaseSensitive
@@ -1147,7 +1148,8 @@ func (app *App) ErrorHandler(ctx Ctx, err error) error {
 	if !app.config.CaseSensitive {
 		path = utils.ToLower(path)
 	}
-	for prefix, subApp := range app.mountFields.appList {
+	for mountPoint, subApp := range app.mountFields.appList {
+		prefix := mountPoint
 		if !app.config.CaseSensitive {
 			prefix = utils.ToLower(prefix)
 		}
@@ -1158,11 +1160,16 @@ func (app *App) ErrorHandler(ctx Ctx, err error) error {
 		if len(path) > len(prefix) && prefix[len(prefix)-1] != '/' && path[len(prefix)] != '/' {
 			continue
 		}
-		// all candidates are prefixes of the same path, so their lengths are distinct:
-		// the longest one that configured a handler wins, whatever the iteration order
-		if subApp.configured.ErrorHandler != nil && len(prefix) > mountedPrefixLen {
+		// all candidates are prefixes of the same path, so their lengths are distinct unless two mount points
+		// differ in letter case only: the longest one that configured a handler wins, among equally long ones
+		// the smaller mount point as written - whatever the iteration order
+		if subApp.configured.ErrorHandler == nil {
+			continue
+		}
+		if len(prefix) > mountedPrefixLen || (len(prefix) == mountedPrefixLen && mountPoint < mountedPrefix) {
 			mountedErrHandler = subApp.config.ErrorHandler
 			mountedPrefixLen = len(prefix)
+			mountedPrefix = mountPoint
 		}
 	}
 
